@@ -7,5 +7,5 @@ print(' '.join(c['property_id'] for c in json.load(open('MANIFEST.json'))['check
   s=$(date +%s)
   out=$(VERIF_SEED=${VERIF_SEED:-0} timeout 7200 ./check $p --tier thorough --no-evidence 2>&1 | grep -v conda)
   echo "$p: $(echo "$out" | grep -E '^\[' | tail -1) ($(( $(date +%s) - s )) s)"
-  echo "$out" | grep -E "VIOLATION|HARNESS|violation:|KNOWN" | head -5
+  echo "$out" | grep -E "VIOLATION|HARNESS|violation:|KNOWN|finding of another property" | head -8
 done
